@@ -244,6 +244,22 @@ PROPS = {
         rule="a case = 0..4 shapes whose vertices are drawn over ranked value ids with the extreme at random positions "
              "(first/middle/last vertex, any part, any shape); each trace file uses its own order-preserving concretisation",
     ),
+    "C16": dict(
+        level="model_checking",
+        level_text="TLC checks on Rings.tla that the conforming constructor closes, orients by exact area and loses no vertex for "
+                   "every ring of 1..4 (thorough 5) vertices on the 3x3 grid with both roles, and is idempotent on non-zero-area "
+                   "rings; the harness constructs the same rings (x 3 point types, via new / with_rings / polygon!), random ring "
+                   "lists with any roles, multipatches of all six kinds (new / with_parts / multipatch!), ends differing in Z or M "
+                   "only, and TLC validates every observed (input, output, rebuilt) triple against RingOK / PatchOK",
+        level_note="trusted: TLC, the id<->f64 tables; orientation claimed only under exact dyadic X/Y (id * 2^k); one trace file "
+                   "uses arbitrary special doubles for closure and vertex preservation only",
+        technique="behaviour replay + trace validation: exhaustive grid rings through the real constructors, validated by TLC",
+        mc=[dict(module="MC_Rings", quick="MC_Rings.cfg", thorough="MC_Rings_T.cfg", workers=8)],
+        stages=[dict(cmd="rings", spec="Trace_Rings", quick=dict(chunks=8, maxv=4, random=300),
+                     thorough=dict(chunks=16, maxv=5, random=5000))],
+        rule="a case = one constructor call; grid rings are enumerated exhaustively (9^n for n = 1..maxv) x 2 roles x 3 point types",
+        exhaustive=True,
+    ),
     "C18": dict(
         level="model_checking",
         level_text="size algebra (ContentSize) checked against the reference encoder by TLC; announced size, emitted length and "
